@@ -1,5 +1,36 @@
+//! rv-sbor: runtime monitors for the SBOR codec properties C20-C23.
+mod codec;
+mod flav;
+mod typed;
+mod wire;
+
+#[global_allocator]
+static A: rv_common::alloc_count::CountingAlloc = rv_common::alloc_count::CountingAlloc;
+
 fn main() {
     let args = rv_common::parse_args();
-    eprintln!("no check named {}", args.prop);
-    std::process::exit(2);
+    if args.prop == "__child" {
+        typed::child_main(args.extra.first().map(|s| s.as_str()).unwrap_or(""));
+    }
+    let replay_doc = args.replay.as_ref().map(|p| {
+        let text = std::fs::read_to_string(p).unwrap_or_else(|e| {
+            eprintln!("cannot read replay file {}: {e}", p.display());
+            std::process::exit(2)
+        });
+        serde_json::from_str::<serde_json::Value>(&text).unwrap_or_else(|e| {
+            eprintln!("bad replay file: {e}");
+            std::process::exit(2)
+        })
+    });
+    let report = match (args.prop.as_str(), &replay_doc) {
+        ("C20", None) => codec::run(&args, codec::Which::C20),
+        ("C21", None) => codec::run(&args, codec::Which::C21),
+        ("C20", Some(doc)) => codec::replay(&args, codec::Which::C20, doc),
+        ("C21", Some(doc)) => codec::replay(&args, codec::Which::C21, doc),
+        _ => {
+            eprintln!("no check named {}", args.prop);
+            std::process::exit(2);
+        }
+    };
+    std::process::exit(report.finish())
 }
